@@ -49,6 +49,8 @@ def plan(tier, seed):
                 init = 'onehot'
             o = scen.sample_opts(rng, kind, lead)
             o.pop('aligner', None)
+            if r % 8 == 5:
+                o['saliency'] = 'tiny'          # observation weights of a very quiet recording: positive, total mass 1e-14 .. 1e-8
             iters = int(pick([1, 2, 3, 5, 10])) if kind != 'cbmm' else int(pick([1, 2]))
             cases.append(dict(lane='mixture', kind=kind, cls=ccls, tag=cls, K=K, N=N, D=D, lead=lead, dtype=dtype, init=init, iters=iters, opts=o, offset=float(pick([0, 0, 0, 1e5])) if kind in ('gmm', 'gcacgmm') and cls == 'gauss' else 0.0, rs=[seed, 9, i]))
             i += 1
